@@ -118,6 +118,102 @@ theorem tick_block (b : Band) (now : Nat) :
     (bandChooseHelloTime (bandUpdateStats b now) now).helloTs = now + bandInterval (bandUpdateStats b now).ni ∧
     (bandChooseHelloTime (bandUpdateStats b now) now).ni = (bandUpdateStats b now).ni := ⟨rfl, rfl⟩
 
+/-! ## The tick itself -/
+
+theorem enumUpdate_band (e : Fsm) (b : Band) (te ac : Bool) (nowS : Nat) (h : (enumUpdate e b te ac nowS).1.state = 1) :
+    (enumUpdate e b te ac nowS).2 = b := by
+  unfold enumUpdate at h ⊢
+  by_cases h0 : e.state ≠ 0
+  · rw [if_pos h0] at h ⊢
+    by_cases ht : te = true
+    · rw [if_pos ht] at h; simp at h
+    · rw [if_neg ht]
+      by_cases ha : ac = true
+      · rw [if_pos ha]
+      · rw [if_neg ha]
+  · rw [if_neg h0]
+
+theorem enumHello_band (e : Fsm) (b : Band) (lastTx0 : Nat) (port : PortMode) (nowMs : Nat) :
+    (enumHello e b lastTx0 port nowMs).2.1.r = b.r ∧ (enumHello e b lastTx0 port nowMs).2.1.ni = b.ni ∧
+    (enumHello e b lastTx0 port nowMs).2.1.blockTs = b.blockTs ∧ (b.begun = true → (enumHello e b lastTx0 port nowMs).2.1.begun = true) := by
+  unfold enumHello
+  by_cases h1 : b.helloTs > 0 ∧ nowMs ≥ b.helloTs
+  · rw [if_pos h1]
+    cases port <;> simp only [] <;>
+      (split
+       · exact ⟨rfl, rfl, rfl, fun h => h⟩
+       · simp only [bandDoHello, bandChooseHelloTime]
+         by_cases h3 : nowMs + bandInterval b.ni < nowMs + X.helloMinIntervalMs
+         · simp only [h3, if_true]; first | exact ⟨trivial, trivial, trivial, fun _ => trivial⟩ | exact ⟨rfl, rfl, rfl, fun _ => rfl⟩ | simp
+         · simp only [h3, if_false]; first | exact ⟨trivial, trivial, trivial, fun _ => trivial⟩ | exact ⟨rfl, rfl, rfl, fun _ => rfl⟩ | simp)
+  · rw [if_neg h1]; exact ⟨rfl, rfl, rfl, fun h => h⟩
+
+theorem enumBlock_holds (b bh : Band) (nowMs : Nat) (hr : b.r < u32)
+    (h1 : bh.r = b.r) (h2 : bh.ni = b.ni) (h3 : bh.blockTs = b.blockTs) (h4 : b.begun = true → bh.begun = true) :
+    holdsC13Tick b (enumBlock bh nowMs) nowMs = true := by
+  unfold enumBlock
+  by_cases hb : bh.blockTs > 0 ∧ nowMs ≥ bh.blockTs
+  · rw [if_pos hb]
+    unfold holdsC13Tick
+    split
+    · have hint : (bandChooseHelloTime (bandUpdateStats bh nowMs) nowMs).helloTs ≥
+          nowMs + loadInterval (bandChooseHelloTime (bandUpdateStats bh nowMs) nowMs).ni := by
+        simp only [bandChooseHelloTime, interval]; omega
+      have hni : (bandChooseHelloTime (bandUpdateStats bh nowMs) nowMs).ni = (if bh.r > 0 ∧ bh.begun = true then niFormula b.r else b.ni) := by
+        simp only [bandChooseHelloTime, bandUpdateStats]
+        split
+        · rw [h1, formula b.r hr]
+        · exact h2
+      have hr0 : (bandChooseHelloTime (bandUpdateStats bh nowMs) nowMs).r = 0 := rfl
+      simp only [hr0, decide_true, Bool.true_and, decide_eq_true hint, Bool.and_true]
+      rw [hni]
+      by_cases hc : b.r > 0 ∧ b.begun = true
+      · have hc' : bh.r > 0 ∧ bh.begun = true := ⟨by rw [h1]; exact hc.1, h4 hc.2⟩
+        simp [hc, hc']
+      · simp only [hc, if_false, Bool.and_true]
+        split <;> simp
+    · rfl
+  · rw [if_neg hb]
+    unfold holdsC13Tick
+    have : ¬ (bh.blockTs = nowMs + 300 ∧ bh.blockTs ≠ b.blockTs) := fun h => h.2 h3
+    simp [this]
+
+/-- THE TICK THEOREM: whatever else the tick does (table-driven state update, Hello branch with its one-second floor,
+    any wiring of the port), if it ends a block the count follows the formula and the next Hello is scheduled no sooner
+    than the load formula for the NEW count allows -/
+theorem tick_schedule (e : Fsm) (b : Band) (table : Option Table) (lastTx0 : Nat) (port : PortMode) (nowMs : Nat) (hr : b.r < u32) :
+    match (tickEnumStage (some (e, some b)) table lastTx0 port nowMs).1 with
+    | some (_, some b') => holdsC13Tick b b' nowMs = true
+    | _ => True := by
+  unfold tickEnumStage
+  simp only []
+  by_cases hs : (enumUpdate e b (tableEmptyOf table) (allCompleteOf table) (nowMs / 1000)).1.state = 1
+  · simp only [hs, if_true]
+    have hb := enumUpdate_band e b _ _ _ hs
+    rw [hb]
+    obtain ⟨h1, h2, h3, h4⟩ := enumHello_band (enumUpdate e b (tableEmptyOf table) (allCompleteOf table) (nowMs / 1000)).1 b lastTx0 port nowMs
+    exact enumBlock_holds b _ nowMs hr h1 h2 h3 h4
+  · simp only [hs, if_false]
+    have hbt : (enumUpdate e b (tableEmptyOf table) (allCompleteOf table) (nowMs / 1000)).2.blockTs = b.blockTs ∨
+        (enumUpdate e b (tableEmptyOf table) (allCompleteOf table) (nowMs / 1000)).2.blockTs = 0 := by
+      unfold enumUpdate
+      by_cases h0 : e.state ≠ 0
+      · rw [if_pos h0]
+        by_cases ht : tableEmptyOf table = true
+        · rw [if_pos ht]; exact Or.inr rfl
+        · rw [if_neg ht]
+          by_cases ha : allCompleteOf table = true
+          · rw [if_pos ha]; exact Or.inl rfl
+          · rw [if_neg ha]; exact Or.inl rfl
+      · rw [if_neg h0]; exact Or.inl rfl
+    unfold holdsC13Tick
+    have : ¬ ((enumUpdate e b (tableEmptyOf table) (allCompleteOf table) (nowMs / 1000)).2.blockTs = nowMs + 300 ∧
+        (enumUpdate e b (tableEmptyOf table) (allCompleteOf table) (nowMs / 1000)).2.blockTs ≠ b.blockTs) := by
+      rcases hbt with h | h
+      · exact fun hh => hh.2 h
+      · rw [h]; omega
+    rw [if_neg this]
+
 /-- non-vacuity / the repaired overflow: r = 65536 saturates instead of wrapping to 0 -/
 example : bandNewNi 65536 = 10000 ∧ bandNewNi 14 = 8820 ∧ bandNewNi 15 = 10000 ∧ bandNewNi 4294967295 = 10000 := by decide
 
